@@ -9,4 +9,4 @@ Extraction "model.ml"
   subj_new subj_add_catid_ignore for_session acl_add_all
   status_code im_handle write_chunked spec_response spec_write_chunked holds holds_chunked wf_node wf_fabrics shape_stable
   permitted served request_spec concrete_decision
-  read_events subscribe_events holds_events holds_group permitted_events.
+  read_events subscribe_events holds_events holds_events_known holds_group permitted_events.
